@@ -12,6 +12,7 @@ CONSTANTS
   SeekMax = 3
   Ops = FALSE
   Hints = {}
+  Faults = {}
   IterSingleLine = FALSE
   Emit = TRUE
   Modes = {"shared", "byname"}
@@ -21,6 +22,7 @@ CONSTANTS
   IterYieldsAll = TRUE
   FdKinds = {"none", "same", "less", "more"}
   TrustFd = FALSE
+  CommitAfterRead = TRUE
 SPECIFICATION Spec
 INVARIANT TypeOK
 INVARIANT IndexExact
